@@ -160,6 +160,16 @@ def _body(args: Dict[str, Any], ctx: Any) -> Any:
     return {'ran': True}
 
 
+def _inject(inner: Any) -> Any:
+    """a dependency-injecting decorator: the wrapper keeps the inner signature (functools.wraps) and supplies dep_x itself"""
+    import functools
+
+    @functools.wraps(inner)
+    def wrapper(*args: Any, **kwargs: Any) -> Any:
+        return inner(*args, dep_x='injected-default', **kwargs)
+    return wrapper
+
+
 class C14(Check):
     pid = 'C14'
     level = 'exploration'
@@ -167,7 +177,7 @@ class C14(Check):
     thorough_examples = 20000
     rule = (
         "cases: signatures of 1..3 parameters (positional-or-keyword / keyword-only, with / without defaults) plus optional context parameter "
-        "and optional parameters excluded by an exclusion predicate (name prefix 'dep_'), as plain function, coroutine or class based view "
+        "and optional parameters excluded by an exclusion predicate (name prefix 'dep_'; with a default, or without one and injected by a functools.wraps decorator), as plain function, coroutine or class based view "
         "method; JSON-schema half: per-parameter fragments from 15 schemas (type incl. unions, enum, minimum / maximum, minLength, items.type, a string format that is enforced only when the method's own validator arguments carry a format checker) + "
         "top-level required / additionalProperties; pydantic half: annotations int, str, float, bool, Optional[int], List[int], Dict[str,int], "
         "an Enum, a model class, a model class whose validator raises ValueError, unannotated; coerce on / off; argument values from per-type "
@@ -181,11 +191,11 @@ class C14(Check):
     assumptions = [
         "pydantic's TypeAdapter judges type conformance / conversion (trusted); pjrpc's model building, binding, error path and argument passing are under test",
         "JSON-schema semantics: draft-07 (integer admits 1.0; booleans are not numbers; enum by JSON equality)",
-        "parameters excluded by predicate have defaults (they are injected by other means in real use)",
+        "parameters excluded by predicate either have a default or are supplied by a functools.wraps decorator (both styles appear in the repository's examples)",
     ]
     trusted_base = ['pydantic.TypeAdapter', 'reference JSON-schema evaluator in checks/c14.py', 'python call binding']
     required_classes = ['validator/jsonschema', 'validator/pydantic', 'coerce/on', 'coerce/off', 'outcome/executed', 'outcome/refused-by-binding',
-                        'outcome/refused-by-validation', 'flavour/func', 'flavour/view', 'ctx/yes', 'excluded/yes', 'attack/excluded-name-supplied',
+                        'outcome/refused-by-validation', 'flavour/func', 'flavour/view', 'ctx/yes', 'excluded/yes', 'excluded/injected-without-default', 'attack/excluded-name-supplied',
                         'converted', 'type/vmodel-rejects', 'passing/positional', 'passing/named', 'dispatcher/async', 'sibling-same-name-served-first', 'format/checked', 'format/not-checked']
 
     def strategy(self, tier: str):
@@ -260,6 +270,8 @@ class C14(Check):
                     top['additionalProperties'] = False
             case_ = {'dispatcher': draw(st.sampled_from(['sync', 'sync', 'async'])), 'validator': validator, 'flavour': flavour, 'ctx': ctx,
                      'excluded': excluded, 'coerce': draw(s_bool), 'params': params, 'top': top, 'args': args}
+            if excluded:
+                case_['excluded_style'] = draw(st.sampled_from(['default', 'injected']))
             if validator == 'jsonschema':
                 # per-method validator arguments besides the schema: a format checker for this method and / or for the sibling
                 case_['format_checker'] = draw(st.integers(0, 3)) == 0
@@ -322,10 +334,12 @@ class C14(Check):
                 ns[f'D{i}'] = p['default']['value']
                 src += f' = D{i}'
             parts.append(src)
+        injected = spec['excluded'] and spec.get('excluded_style') == 'injected'
         if spec['excluded']:
             if not star:
                 parts.append('*')
-            parts.append("dep_x='injected-default'")
+            # 'injected': no default at all - a functools.wraps decorator supplies the value (the dishka example in the repository)
+            parts.append("dep_x" if injected else "dep_x='injected-default'")
         names = [p['name'] for p in params] + (['dep_x'] if spec['excluded'] else [])
         bound = '{' + ', '.join(f'{n!r}: {n}' for n in names) + '}'
         ctx_expr = 'self._ctx' if view else ('ctx' if spec['ctx'] else 'NOCTX')
@@ -336,12 +350,16 @@ class C14(Check):
             ns['ViewMixin'] = pjrpc.server.ViewMixin
             exec(src, ns)
             cls = ns['View']
+            if injected:
+                cls.meth = _inject(cls.meth)
             cls.meth = validator.validate(cls.meth, **vargs) if vargs else validator.validate(cls.meth)
             reg = pjrpc.server.MethodRegistry()
             reg.view(cls, context='context' if spec['ctx'] else None)
         else:
             src = f"{a}def meth({', '.join(parts)}):\n    return _body({bound}, {ctx_expr})\n"
             exec(src, ns)
+            if injected:
+                ns['meth'] = _inject(ns['meth'])
             fn = validator.validate(ns['meth'], **vargs) if vargs else validator.validate(ns['meth'])
             reg = pjrpc.server.MethodRegistry()
             reg.add(fn, 'meth', context='ctx' if spec['ctx'] else None)
@@ -453,6 +471,7 @@ class C14(Check):
                 discs.append(Disc(f"C14/refused-with-wrong-code/{code}", f"{jg.short(doc)} | {where}"))
         classes = [f"validator/{spec['validator']}", f"flavour/{spec['flavour']}", 'ctx/yes' if spec['ctx'] else 'ctx/no',
                    'excluded/yes' if spec['excluded'] else 'excluded/no', f"dispatcher/{spec['dispatcher']}",
+                   *(['excluded/injected-without-default'] if spec['excluded'] and spec.get('excluded_style') == 'injected' else []),
                    {'executed': 'outcome/executed', 'binding': 'outcome/refused-by-binding', 'validation': 'outcome/refused-by-validation'}[verdict]]
         if spec['validator'] == 'pydantic':
             classes.append('coerce/on' if spec['coerce'] else 'coerce/off')
